@@ -12,12 +12,18 @@ for d in "$PWD"/seeded/*/; do
   id=$(basename "$d"); prop=$(python3 -c "import json;print(json.load(open('$d/meta.json'))['breaks_property'])")
   if ! git -C "$REPO" apply --check "$d/patch.diff" 2>/dev/null; then echo "$id $prop patch no longer applies (the code it changes has moved)"; continue; fi
   git -C "$REPO" apply "$d/patch.diff"
-  out=$(./run "$prop" quick 2>&1); code=$?
+  # the checks recorded as detecting this seed (usually the property it breaks)
+  checks=$(python3 -c "import json;print(' '.join(json.load(open('$d/meta.json')).get('detected_by_quick_checks') or ['$prop']))")
+  hit=0
+  for c in $checks; do
+    out=$(./run "$c" quick 2>&1); code=$?
+    n=$(echo "$out" | grep -c '^VIOLATION')
+    first=$(echo "$out" | grep -m1 -E "violation\[0\]" | cut -c1-160)
+    echo "$id $prop check=$c exit=$code violation_lines=$n $first"
+    [ $code -eq 1 ] && hit=1
+  done
   git -C "$REPO" checkout -q -- .
-  n=$(echo "$out" | grep -c '^VIOLATION')
-  first=$(echo "$out" | grep -m1 -E "violation\[0\]" | cut -c1-160)
-  echo "$id $prop exit=$code violation_lines=$n $first"
-  [ $code -ne 1 ] && missed=$((missed+1))
+  [ $hit -ne 1 ] && { missed=$((missed+1)); echo "$id NOT DETECTED"; }
 done
 echo "not detected: $missed"
 # evidence files were rewritten from mutated trees: regenerate them
